@@ -17,7 +17,7 @@ go test -vet=off -count=1 ./... 2>&1 | grep -v "^ok\|no test files" | tail -20
 SUITE=${PIPESTATUS[0]}
 echo "suite rc=$SUITE"
 case "$DEMO" in
- *_test.go) cp $S/$DEMO $DDIR/zz_seed_demo_test.go; RUN="go test -vet=off -count=1 -run Seed ./$DDIR/";;
+ *_test.go) cp $S/$DEMO $DDIR/zz_seed_demo_test.go; PAT=$(grep -o "^func Test[A-Za-z0-9_]*" $S/$DEMO | sed 's/func //' | paste -sd'|'); RUN="go test -vet=off -count=1 -run ^($PAT)\$ ./$DDIR/";;
  *) mkdir -p $DDIR; cp $S/$DEMO $DDIR/main.go; RUN="go run ./$DDIR";;
 esac
 echo "== demo with change: $RUN"
